@@ -40,6 +40,11 @@ def parseBox (s : String) : Option (Option Box) :=
       return some ⟨← parseFace a, ← parseFace b, ← parseFace c, ← parseFace d, ← parseFace e, ← parseFace f⟩
   | _ => none
 
+def parseNode (t : String) : Option Node :=
+  match t.splitOn ":" with
+  | [k, o, sz, c] => do return ⟨← parseKey k, ← o.toNat?, ← sz.toNat?, ← c.toInt?⟩
+  | _ => none
+
 def showNode (n : Node) : String := s!"{showKey n.key}:{n.offset}:{n.byteSize}:{n.count}"
 
 def handle (args : List String) : Option String :=
@@ -57,6 +62,13 @@ def handle (args : List String) : Option String :=
       match load H q with
       | .ok st => return "ok " ++ " ".intercalate (st.out.map showNode)
       | .error e => return "err " ++ e
+  | ["fetch", nodes] => do
+      -- nodes in traversal order; prints the read requests and the chunk table
+      let ns ← if nodes = "-" then some [] else (nodes.splitOn ",").mapM parseNode
+      let gs := groupNodes (sortNodes ns)
+      let qs := byteQueries gs
+      return ",".intercalate (qs.map fun q => s!"{q.1}:{q.2}") ++ " | " ++
+        ",".intercalate ((chunkTable gs.flatten).map fun c => s!"{c.1}:{c.2}")
   | ["grid", s, o, b0, b1, x] => do
       let s ← parseRat s
       let o ← parseRat o
